@@ -9,6 +9,12 @@ another hostile object, raise an exception (Exception or BaseException-only clas
 result kind, the exact text (generic fallback texts and timestamps canonicalised to markers) and the order
 of oracle calls.  Wild cases (oracle only): realistic objects (real Failure, LogLevel, floats, containers,
 raw garbage format strings) — only "returns text, never raises" is checked.
+
+Legacy scripted cases (entry "leg"): twisted.python.log.textFromEventDict on a legacy event dict — message tuple,
+isError, failure, why, a %-format AST (literals with %%, %(key)<width>{s,r,a,d,unsupported}, key-less items that
+receive the whole dict, a trailing lone %), str / bytes / None / hostile `format` — with the same tape of outcomes;
+tied to Twisted.Log.Format.Legacy (result kind, exact text with the fallback families and repr(eventDict)
+canonicalised to markers, order of hostile calls).
 """
 import json
 import linecache
@@ -26,9 +32,11 @@ RULE = ("scripted events: format-string ASTs (literals, fields with .attr/.attr(
         "hostile/None/absent log_format, flattened events, log_time/log_system/log_level/log_namespace/log_failure "
         "each absent/None/text/hostile, custom formatTime callables, and a tape of hostile outcomes (text/None/object/"
         "raise of 9 classes incl. KeyboardInterrupt, SystemExit, GeneratorExit, BaseException subclass; exceptions "
-        "whose str() raises); wild events with real Failure/LogLevel/float/garbage formats; legacy event dicts for "
-        "twisted.python.log.textFromEventDict (oracle only); "
-        "distinct = (entry point, result kind, fallback family, sites touched, raised classes on the tape)")
+        "whose str() raises); wild events with real Failure/LogLevel/float/garbage formats; scripted legacy event dicts for "
+        "twisted.python.log.textFromEventDict (message tuple, isError/failure/why, %-format ASTs with keyed/key-less items, "
+        "widths, s/r/a/number/unsupported conversions, lone '%', str/bytes/None/hostile format; same tapes) tied to the model, "
+        "plus wild legacy dicts with realistic objects (oracle only); "
+        "distinct = (entry point, result kind, fallback family, sites touched, branch/conversions, raised classes on the tape)")
 ASSUMES = [
     "the event is a real dict with str keys (LogEvent); hostile behaviour lives in the values and in what their methods return",
     "texts on the tape / in values come from an alphabet without quote characters, digits and format-spec characters, so "
@@ -37,17 +45,30 @@ ASSUMES = [
     "exercised on every unformattable case by the oracle",
     "dict order of the event is log_format, log_time, log_system, log_level, log_namespace, log_failure, extras, log_flattened",
     "MemoryError/RecursionError raised by the interpreter inside an except-handler are out of scope",
-    "twisted.python.log.textFromEventDict/_safeFormat (legacy %-formatting) are covered by the oracle only (no Lean model); "
-    "legacy events have a 'message' tuple and an 'isError' key (documented as required); _safeFormat's deliberate re-raise of "
-    "KeyboardInterrupt is a recorded finding",
+    "legacy events (twisted.python.log.textFromEventDict) have a 'message' tuple and an int 'isError' key (documented as "
+    "required); truthiness of message/isError/why is that of genuine values — a `why` whose __bool__ raises escapes `if why:`, "
+    "which is outside the str/repr/format behaviours the statement lists; format keys name failure/why/further keys or a "
+    "missing key (not message/isError/format); %-items are %(k)<width>c, key-less %<width>c, %% and a trailing lone % "
+    "(precision/flags/'*' only in the oracle-only wild cases); a format object defines no __mod__",
+    "_safeFormat's deliberate re-raise of KeyboardInterrupt is a recorded finding: it is the explicit exception in "
+    "textFromEventDict_total (hypothesis: the first `fmtString % fmtDict` does not end in KeyboardInterrupt), "
+    "textFromEventDict_raises_iff shows nothing else escapes, textFromEventDict_counterexample is the witness",
 ]
 TRUSTED = ["CPython string.Formatter.parse as the reader of the rendered format-string AST (self-checked per case)"]
 MANIFEST = {
     "text": "Lean theorems (TwistedProps/C55.lean): for every event shape, every flag/formatTime choice and EVERY tape of hostile "
             "outcomes (any stateful behaviour of str/repr/format/getattr/getitem/call/getTraceback/formatTime, raising any "
             "exception class incl. BaseException-only ones), formatEvent, eventAsText, formatEventAsClassicLogText and "
-            "formatUnformattableEvent return a text (classic: text or None) and never raise; exception-flow model tied to "
-            "_format.py by differential runs comparing result, text and the order of hostile calls.",
+            "formatUnformattableEvent return a text (classic: text or None) and never raise; the classic line is None or exactly "
+            "timeStamp + ' [' + system + '] ' + text, newlines indented, final newline, with timeStamp '-' or the formatted time "
+            "under the default formatTime and system str(log_system) / namespace#level / UNFORMATTABLE "
+            "(formatEventAsClassicLogText_structure, formatSystem_cases); the legacy "
+            "twisted.python.log.textFromEventDict/_safeFormat (message join, isError/failure/why branch, %-formatting with its "
+            "three nested fallbacks) returns a text or None and never raises EXCEPT the recorded finding: it raises iff the "
+            "event reaches _safeFormat and the first `fmtString % fmtDict` raises KeyboardInterrupt, which `except "
+            "KeyboardInterrupt: raise` lets through (textFromEventDict_raises_iff, _total, _total_of_noKI_tape, "
+            "_counterexample); exception-flow model tied to _format.py and python/log.py by differential runs comparing "
+            "result, text and the order of hostile calls.",
     "note": "trusts Lean kernel, the hand-written exception-flow model (differentially tied incl. call order), CPython str.format "
             "internals as transcribed from string.Formatter, reflect.safe_repr/safe_str and Failure.__str__ being total",
     "technique": "Lean 4 proof (exception-monad model, every oracle call universally quantified via a tape) + differential tie",
@@ -253,6 +274,8 @@ def norm(c):
 def model_line(c):
     if c.get("wild"):
         return None
+    if c["entry"] == "leg":
+        return leg_model_line(c)
     c = norm(c)
     f = c["format"]
     fs = f[0] + (m_segs(f[1]) if f[0] in "sb" else m_val(f[1]) if f[0] == "o" else "")
@@ -437,6 +460,8 @@ def run_impl(c):
     if c.get("wild"):
         return run_wild(c)
     key = json.dumps(c, sort_keys=True)
+    if c["entry"] == "leg":
+        return run_leg(c, key)
     c = norm(c)
     if c["format"][0] in "sb" and "!" not in [s[0] for s in c["format"][1]]:
         # self-check of the renderer: CPython's parser reads back the fields we meant
@@ -444,6 +469,130 @@ def run_impl(c):
         if got != field_triples(c["format"][1]):
             return f"!render-mismatch {got!r}"
     return run_scripted(c, key)
+
+
+# ---------------------------------------------------------------------------------------- legacy scripted cases
+# twisted.python.log.textFromEventDict on scripted legacy event dicts, tied to Twisted.Log.Format.Legacy
+
+DICT, INVALID, LOSTFMT = "\ue004", "\ue005", "\ue006"
+_PCONV = {"s": "s", "r": "r", "a": "a", "d": "d", "x": "q"}     # "q": an unsupported format character
+LEG_ALPHA = ["a", "b", "é", "€", "\U0001F600", "\n", " ", ":", "{", "}", "#", "%", "(", ")"]
+
+
+def canon_psegs(segs):
+    """a lone '%' is only a lone '%' at the very end of the format string"""
+    out = []
+    for sg in segs:
+        out.append(list(sg))
+        if sg[0] == "!":
+            break
+    return out
+
+
+def render_pct(segs):
+    out = []
+    for sg in canon_psegs(segs):
+        if sg[0] == "l":
+            out.append(sg[1].replace("%", "%%"))
+        elif sg[0] == "k":
+            out.append("%(" + sg[1] + ")" + (str(sg[2]) if sg[2] else "") + _PCONV[sg[3]])
+        elif sg[0] == "p":
+            out.append("%" + (str(sg[1]) if sg[1] else "") + _PCONV[sg[2]])
+        else:
+            out.append("%")
+    return "".join(out)
+
+
+def m_psegs(segs):
+    out = []
+    for sg in canon_psegs(segs):
+        if sg[0] == "l":
+            out.append("l" + enc(sg[1]))
+        elif sg[0] == "k":
+            out.append(f"k{sg[1]}~{sg[2]}~{sg[3]}")
+        elif sg[0] == "p":
+            out.append(f"p{sg[1]}~{sg[2]}")
+        else:
+            out.append("!")
+    return "|".join(out)
+
+
+def leg_model_line(c):
+    f = c["lformat"]
+    fs = "_" if f[0] == "_" else f[0] + (m_psegs(f[1]) if f[0] in "sb" else f[1])
+    return " ".join(["leg", "M=" + (";".join(m_val(v) for v in c["message"]) or "-"), "I=" + str(c["isError"]), "F=" + fs,
+                     "X=" + m_val(c["failure"]), "W=" + m_val(c["why"]),
+                     "E=" + (";".join(k + "=" + m_val(v) for k, v in c["extras"]) or "-"),
+                     "P=" + (";".join(m_outcome(o) for o in c["tape"]) or "-")])
+
+
+class MarkDict(dict):
+    """the event dict with its own repr canonicalised: every value is still repr'd, in order, by dict.__repr__"""
+
+    def __repr__(self):
+        dict.__repr__(self)
+        return DICT
+
+
+def build_legacy(c, tape, cls):
+    ev = cls()
+    ev["message"] = tuple(py_val(v, tape) for v in c["message"])
+    ev["isError"] = c["isError"]
+    f = c["lformat"]
+    if f[0] == "s":
+        ev["format"] = render_pct(f[1])
+    elif f[0] == "b":
+        ev["format"] = render_pct(f[1]).encode("utf-8")
+    elif f[0] == "o":
+        ev["format"] = py_val(f[1], tape)
+    for key in ("failure", "why"):
+        if c[key] != "_":
+            ev[key] = py_val(c[key], tape)
+    for k, v in c["extras"]:
+        ev[k] = py_val(v, tape)
+    return ev
+
+
+def observe_leg(c, cls):
+    tape = Tape(c["tape"])
+    ev = build_legacy(c, tape, cls)
+    try:
+        r = legacylog.textFromEventDict(ev)
+    except BaseException as e:  # noqa: the property is about exactly this
+        if type(e).__name__ == "Timeout":
+            raise
+        return ("raised", type(e).__name__, "".join(tape.trace), site_of(e))
+    if r is None:
+        return ("none", None, "".join(tape.trace), None)
+    if not isinstance(r, str):
+        return ("nontext", type(r).__name__, "".join(tape.trace), None)
+    return ("text", r, "".join(tape.trace), None)
+
+
+# reflect.safe_str's description of an object whose str() failed: ends with the printed traceback and "\n>"
+_SAFESTR_ANY = re.compile(r"<\w+ instance at 0x[0-9a-f]+ with str error:\n.*?\n>", re.S)
+
+
+def run_leg(c, key):
+    raw = observe_leg(c, dict)
+    can = observe_leg(c, MarkDict)
+    if (raw[0], raw[2]) != (can[0], can[2]) or (raw[0] != "text" and raw[1] != can[1]):
+        return f"!inconsistent raw={raw[:3]!r} canonical={can[:3]!r}"
+    kind, val, trace, site = can
+    _LAST[key] = (raw, site)
+    if kind == "raised":
+        return f"!raised {val} @{trace}"
+    if kind == "none":
+        return f"none @{trace}"
+    if kind == "nontext":
+        return f"!nontext {val} @{trace}"
+    if val.startswith("Invalid format string or unformattable object in log message: "):
+        val = INVALID
+    elif val.startswith("UNFORMATTABLE OBJECT WRITTEN TO LOG with fmt ") and val.endswith(", MESSAGE LOST"):
+        val = LOSTFMT
+    else:
+        val = _SAFESTR_ANY.sub(SAFESTR, val)
+    return f"text:{enc(val)} @{trace}"
 
 
 # ---------------------------------------------------------------------------------------- wild (oracle-only) cases
@@ -605,7 +754,7 @@ def oracle(c, out):
         return {"key": "raises:" + str(site).replace(" ", ""),
                 "detail": f"{c['entry']} raised {out.split()[1]} (escaped at {site}) for event {describe(c)}"}
     if out == "none" or out.startswith("none "):
-        if c["entry"] not in ("cl", "legacy"):
+        if c["entry"] not in ("cl", "legacy", "leg"):
             return {"key": "nontext-result", "detail": "returned None"}
     return None
 
@@ -616,6 +765,12 @@ def describe(c):
         if c["entry"] == "legacy":
             d = {"message": c["message"], "isError": c["isError"], "format": c["fmt"], **{k: v for k, v in c["vals"]}}
         return json.dumps(d, ensure_ascii=True)[:300]
+    if c["entry"] == "leg":
+        f = c["lformat"]
+        d = {"message": c["message"], "isError": c["isError"],
+             "format": None if f[0] == "_" else render_pct(f[1]) if f[0] in "sb" else f[1], "format_kind": f[0],
+             **{k: c[k] for k in ("failure", "why") if c[k] != "_"}, **{k: v for k, v in c["extras"]}, "tape": c["tape"][:6]}
+        return json.dumps(d, ensure_ascii=True)[:400]
     d = {k: c[k] for k in ("time", "system", "level", "ns", "failure", "fn", "flags") if c[k] != "_"}
     if c["format"][0] in "sb":
         d["log_format"] = render(c["format"][1])
@@ -632,6 +787,15 @@ def tag(c, out):
     nums = out.split(":")[-1].split(" @")[0].split(".") if out.startswith("text:") else []
     fam = "".join(l for l, m in (("U", UNABLE), ("L", LOST), ("S", SAFESTR), ("T", TIME)) if str(ord(m)) in nums) or "-"
     sites = "".join(sorted(set(out.split("@")[-1])))
+    if c["entry"] == "leg":
+        fam = "".join(l for l, m in (("I", INVALID), ("F", LOSTFMT), ("S", SAFESTR), ("D", DICT)) if str(ord(m)) in nums) or "-"
+        if out.startswith("text:" + enc("PATHOLOGICAL ERROR")):
+            fam = "P"
+        branch = "m" if c["message"] else "e" if c["isError"] and c["failure"] != "_" else "f" + c["lformat"][0]
+        convs = "".join(sorted({sg[-1] for sg in c["lformat"][1] if sg[0] in "kp"})) if c["lformat"][0] in "sb" else ""
+        base = "B" if any(o[0] == "R" and o[1] >= 9 for o in c["tape"]) else ""
+        bad = "x" if any(o[0] == "R" and o[2][0] != "g" for o in c["tape"]) else ""
+        return f"leg:{kind}:{fam}:{sites}:{branch}:{convs}:{base}{bad}"
     shape = c["format"][0] + ("F" if c["flat"] != "_" else "") + ("c" if c["fn"] == "c" else "")
     base = "B" if any(o[0] == "R" and o[1] >= 9 for o in c["tape"]) else ""
     bad = "x" if any(o[0] == "R" and o[2][0] != "g" for o in c["tape"]) else ""
@@ -702,6 +866,37 @@ def corpus():
         {"wild": 1, "entry": "legacy", "message": [], "isError": 0, "fmt": "%(a)s %(b)r %", "vals": [["a", "raise:SystemExit"]]},
         {"wild": 1, "entry": "legacy", "message": ["raise:KeyboardInterrupt", "bytes", "nontext:int"], "isError": 0, "fmt": None, "vals": []},
         {"wild": 1, "entry": "legacy", "message": [], "isError": 1, "fmt": None, "vals": [["failure", "failure-badexc"], ["why", "raise:HostileBase"]]},
+    ]
+    K = lambda k, cv="s", w=0: ["k", k, w, cv]
+    cs += [
+        # legacy textFromEventDict, scripted (tied to Twisted.Log.Format.Legacy)
+        leg_case(lformat=["s", [K("a")]], extras=[["a", "h"]], tape=[R(9)]),          # the recorded finding: KeyboardInterrupt re-raised
+        leg_case(lformat=["s", [K("a", "r")]], extras=[["a", "h"]], tape=[R(9, ("b", 10))]),
+        leg_case(lformat=["s", [K("a")]], extras=[["a", "h"]], tape=[R(10), R(9), R(9)]),   # SystemExit, then both fallbacks fail too
+        leg_case(lformat=["s", [["p", 0, "s"]]], extras=[["a", "h"]], tape=[R(9)]),    # '%s' % dict: repr(a) raises KeyboardInterrupt
+        leg_case(lformat=["b", [["p", 0, "r"]]], extras=[["a", "h"]], tape=[R(9)]),    # bytes '%r' % dict likewise
+        leg_case(lformat=["s", [["l", "x%"], K("a", "s", 6), K("b", "r"), K("c", "a"), ["p", 0, "s"]]],
+                 extras=[["a", ["t", "é"]], ["b", ["t", "q\n"]], ["c", "h"]], tape=[["T", "€"]]),
+        leg_case(lformat=["s", [["p", 3, "s"], ["l", " "]]], extras=[["a", "h"], ["b", "n"]], why="h", tape=[["T", "w"], ["T", "r"]]),
+        leg_case(lformat=["s", [["p", 0, "a"], ["p", 0, "s"]]]),
+        leg_case(lformat=["s", [K("zz")]]), leg_case(lformat=["s", [K("a", "d")]], extras=[["a", "h"]]),
+        leg_case(lformat=["s", [K("a", "x")]], extras=[["a", "h"]]), leg_case(lformat=["s", [["l", "a"], ["!"]]]),
+        leg_case(lformat=["b", [["l", "x"]]]),                                         # bytes format: returned bytes before the repair
+        leg_case(lformat=["b", [K("a")]], extras=[["a", "h"]]), leg_case(lformat=["b", [["p", 0, "s"]]]),
+        leg_case(lformat=["b", [["p", 0, "a"]]], extras=[["a", "h"]], tape=[["T", "é"]]),
+        leg_case(lformat=["o", "h"], tape=[["T", "F"], ["T", "F"]]), leg_case(lformat=["o", "h"], tape=[R(9), R(10), R(12)]),
+        leg_case(lformat=["o", "h"], tape=[["T", "F"], R(1), ["N"]]), leg_case(lformat=["o", "n"], extras=[["a", "h"]], tape=[["O"]]),
+        leg_case(), leg_case(isError=1), leg_case(isError=1, lformat=["s", [["l", "fmt"]]]),
+        leg_case(isError=1, failure="h", tape=[["N"]]),                                # getTraceback returns None: TypeError before the repair
+        leg_case(isError=1, failure="h", tape=[["O"]]), leg_case(isError=1, failure="h", tape=[["T", "tb\nl2"]]),
+        leg_case(isError=1, failure="h", why="h", tape=[R(9), R(9, ("b", 10))]),
+        leg_case(isError=1, failure="h", why="h", tape=[["N"], R(12, ("x",))]),
+        leg_case(isError=1, failure="n", why=["t", ""]), leg_case(isError=1, failure=["t", "f"], why=["t", "because"]),
+        leg_case(isError=1, failure="h", why="n", lformat=["s", [K("a")]], tape=[["T", "tb"]]),
+        leg_case(isError=0, failure="h", lformat=["s", [K("failure"), K("why", "r")]], why="h", tape=[["T", "f"], ["T", "w"]]),
+        leg_case(message=["h", ["t", "é"], "n", "h"], tape=[R(9), ["N"]]),
+        leg_case(message=["h"], isError=1, failure="h", lformat=["s", [K("a")]], tape=[["T", "only message"]]),
+        leg_case(message=[["t", ""]], tape=[]),
     ]
     return cs
 
@@ -870,11 +1065,57 @@ def g_legacy(rng):
             "vals": vals}
 
 
+def leg_case(**kw):
+    c = {"entry": "leg", "message": [], "isError": 0, "lformat": ["_"], "failure": "_", "why": "_", "extras": [], "tape": []}
+    c.update(kw)
+    return c
+
+
+def g_ltext(rng):
+    return "".join(rng.choice(LEG_ALPHA) for _ in range(rng.choice([0, 1, 1, 2, 3, 5])))
+
+
+def g_lval(rng, p_h=0.6):
+    r = rng.random()
+    return "h" if r < p_h else "n" if r < p_h + 0.12 else ["t", g_ltext(rng)]
+
+
+def g_psegs(rng):
+    segs = []
+    for _ in range(rng.choice([0, 1, 1, 2, 2, 3, 4, 5])):
+        r = rng.random()
+        w = rng.choice([0, 0, 0, 3, 6])
+        cv = rng.choice(["s", "s", "s", "r", "r", "a", "d", "x"])
+        if r < 0.28:
+            segs.append(["l", g_ltext(rng) or "x"])
+        elif r < 0.82:
+            segs.append(["k", rng.choice(["a", "a", "b", "c", "zz", "why", "failure"]), w, cv])
+        elif r < 0.94:
+            segs.append(["p", w, cv])
+        else:
+            segs.append(["!"])
+    return canon_psegs(segs)
+
+
+def g_leg(rng):
+    r = rng.random()
+    f = (["_"] if r < 0.08 else ["s", g_psegs(rng)] if r < 0.72 else ["b", g_psegs(rng)] if r < 0.84
+         else ["o", "h"] if r < 0.93 else ["o", "n"])
+    tape = [g_outcome(rng) for _ in range(rng.choice([0, 1, 2, 3, 4, 6, 8]))]
+    if rng.random() < 0.35:
+        tape = [["T", g_ltext(rng)] if rng.random() < 0.7 else ["O"] for _ in range(rng.randint(1, 5))] + tape
+    return leg_case(message=[g_lval(rng) for _ in range(rng.choice([0, 0, 0, 0, 1, 2, 3]))],
+                    isError=rng.choice([0, 0, 1]), lformat=f,
+                    failure="_" if rng.random() < 0.45 else g_lval(rng, 0.7),
+                    why="_" if rng.random() < 0.5 else g_lval(rng, 0.5),
+                    extras=[[k, g_lval(rng)] for k in ["a", "b", "c"] if rng.random() < 0.6], tape=tape)
+
+
 def generate(rng, tier):
     n = 8000 if tier == "quick" else 100000
     for i in range(n):
         r = rng.random()
-        yield g_legacy(rng) if r < 0.05 else g_wild(rng) if r < 0.22 else g_case(rng)
+        yield g_legacy(rng) if r < 0.04 else g_leg(rng) if r < 0.19 else g_wild(rng) if r < 0.33 else g_case(rng)
 
 
 def search(rng, tier, disagreeing):
@@ -897,8 +1138,23 @@ def search(rng, tier, disagreeing):
             yield base_case(entry=entry, failure=v)
             yield base_case(entry=entry, system=v)
             yield base_case(entry=entry, ns=v)
+    K = lambda k, cv="s", w=0: ["k", k, w, cv]
+    for o in outs:
+        for o2 in outs[:3] + outs[3::7]:
+            for cv in "sra":
+                yield leg_case(lformat=["s", [K("a", cv)]], extras=[["a", "h"]], tape=[o, o2, o])
+                yield leg_case(lformat=["s", [["p", 0, cv]]], extras=[["a", "h"]], tape=[o, o2, o])
+                yield leg_case(lformat=["b", [["p", 0, cv]]], extras=[["a", "h"]], tape=[o, o2, o])
+            yield leg_case(lformat=["o", "h"], tape=[o, o2, o])
+            yield leg_case(lformat=["b", [["l", "x"]]], extras=[["a", "h"]], tape=[o, o2])
+            yield leg_case(isError=1, failure="h", tape=[o])
+            yield leg_case(isError=1, failure="h", why="h", tape=[o2, o])
+            yield leg_case(message=["h", "h"], tape=[o, o2])
+    for v in ["n", ["t", ""], ["t", "x"], "h"]:
+        yield leg_case(isError=1, failure=v)
+        yield leg_case(isError=1, failure="h", why=v)
     for _ in range(3000 if tier == "quick" else 20000):
-        yield g_case(rng)
+        yield g_case(rng) if rng.random() < 0.7 else g_leg(rng)
 
 
 def shrink(c):
@@ -914,6 +1170,26 @@ def shrink(c):
             yield {**c, "fmt": "x"}
             for i in range(len(c["fmt"])):
                 yield {**c, "fmt": c["fmt"][:i] + c["fmt"][i + 1:]}
+        return
+    if c["entry"] == "leg":
+        for k in ("failure", "why"):
+            if c[k] != "_":
+                yield {**c, k: "_"}
+        for k in ("extras", "message", "tape"):
+            for i in range(len(c[k])):
+                yield {**c, k: c[k][:i] + c[k][i + 1:]}
+        if c["lformat"][0] in "sb":
+            segs = c["lformat"][1]
+            for i in range(len(segs)):
+                yield {**c, "lformat": [c["lformat"][0], segs[:i] + segs[i + 1:]]}
+            for i, sg in enumerate(segs):
+                if sg[0] == "k" and sg[2]:
+                    yield {**c, "lformat": [c["lformat"][0], segs[:i] + [["k", sg[1], 0, sg[3]]] + segs[i + 1:]]}
+        for i, o in enumerate(c["tape"]):
+            if o[0] == "R" and o[2] != ["g", ""]:
+                yield {**c, "tape": c["tape"][:i] + [["R", o[1], ["g", ""]]] + c["tape"][i + 1:]}
+            if o[0] == "T" and o[1]:
+                yield {**c, "tape": c["tape"][:i] + [["T", ""]] + c["tape"][i + 1:]}
         return
     for k in ("system", "level", "ns", "failure", "time", "flat"):
         if c[k] != "_":
